@@ -130,6 +130,28 @@ def eval_case(case):
         if has_report(r.out, js):
             fails.append(['incomplete-audit-prints-algorithm-report', 'stage %s fault %r opts %r: %r' % (stage, case.get('fault'), opts, r.out[-300:])])
         return mkres(case, nt=True, classes=cl, fails=fails)
+    if k == 'ssh1rated':
+        # protocol-1 peers: the status follows from the worst rating among the key, the ciphers and the authentication types shown
+        from ssh_audit.ssh1_kexdb import SSH1_KexDB
+        d1 = SSH1_KexDB.MASTER_DB
+        cm, am, opts = case['cmask'], case['amask'], case['opts']
+        names = [('key', 'ssh-rsa1')] + [('enc', wire.SSH1_CIPHERS[i]) for i in range(7) if cm >> i & 1] + [('aut', wire.SSH1_AUTHS[i]) for i in range(1, 7) if am >> i & 1]
+        worst = 0
+        for cat, n in names:
+            e = d1[cat].get(n)
+            if e is None:
+                worst = max(worst, 2)
+            else:
+                worst = max(worst, 3 if (len(e) > 1 and e[1]) else (2 if (len(e) > 2 and e[2]) else 0))
+        net = fakenet.FakeNet()
+        net.add('h', 22, fakenet.Ssh1Server(cmask=cm, amask=am))
+        r = drive.run_cli(opts + (['-1'] if case['flag1'] else []) + ['--skip-rate-test', 'h'], net)
+        cl = ['ssh1-rated', 'want:%d' % worst] + [o for o in opts if o != '-n']
+        if r.exc or r.hang:
+            fails.append([drive.crash_sig(r) if r.exc else 'hang', r.brief()])
+        elif r.code != worst and names[1:]:
+            fails.append(['exit-status-%d-instead-of-%d-ssh1' % (r.code, worst), 'cipher mask %#x auth mask %#x opts %r: exit %d, the ratings of %r say %d' % (cm, am, opts, r.code, [n for _, n in names], worst)])
+        return mkres(case, nt=True, classes=cl, fails=fails)
     if k == 'noverdict':
         # a policy audit that cannot be carried out (policy of the other role, policy file that does not load):
         # no verdict, hence neither of the two verdict statuses
@@ -295,6 +317,12 @@ def run(ctx):
         for f, op in itertools.product(('kex', 'enc', 'mac', 'key'), ('drop', 'add', 'swap')):
             if not ctx.quick or ctx.rng.random() < 0.25:
                 pc.append({'kind': 'policy', 'policy': p, 'drift': [f, op]})
+    masks = [(c, a) for c in range(128) for a in range(0, 128, 2)]
+    if ctx.quick:
+        ctx.rng.shuffle(masks)
+        masks = masks[:2500]
+    s1 = [{'kind': 'ssh1rated', 'cmask': c, 'amask': a, 'opts': [['-n'], ['-n', '-j'], ['-n', '-b'], ['-n', '-l', 'fail'], ['-n', '-v'], ['-jj', '-l', 'warn']][i % 6], 'flag1': bool((i // 6) % 2)} for i, (c, a) in enumerate(masks)]
+    ctx.map(s1)
     nv = []
     server_pols = [p for p in sorted(BUILTIN_POLICIES) if BUILTIN_POLICIES[p]['server_policy']]
     client_pols = [p for p in sorted(BUILTIN_POLICIES) if not BUILTIN_POLICIES[p]['server_policy']]
@@ -314,5 +342,5 @@ def run(ctx):
     ctx.map(pc)
     ctx.note(policy_audits_without_verdict=len(nv))
     ctx.note(broken_handshake_cases=len(bc), policy_cases=len(pc))
-    return ctx.finish('exploration', 'Hypothesis peers mixing fail-rated / warn-only / clean / unknown / gss names in random order x 14 option sets x colour x role; handshakes broken at every stage (unresolvable, refused, timeout, silent, close/stall before/inside/after banner, garbage, wrong first packet, bad length/padding, KEXINIT truncated at every field boundary (thorough: every byte) and re-framed, oversized list lengths, SSH-1 bad CRC/truncation) x 6 option sets (two of them policy audits, which must then print no verdict); built-in policy audits with and without drift; non-trivial = a lower-rated name after a failure-rated one, or a level/JSON option, or a broken stage, or a policy audit',
+    return ctx.finish('exploration', 'Hypothesis peers mixing fail-rated / warn-only / clean / unknown / gss names in random order x 14 option sets x colour x role; handshakes broken at every stage (unresolvable, refused, timeout, silent, close/stall before/inside/after banner, garbage, wrong first packet, bad length/padding, KEXINIT truncated at every field boundary (thorough: every byte) and re-framed, oversized list lengths, SSH-1 bad CRC/truncation) x 6 option sets (two of them policy audits, which must then print no verdict); protocol-1 peers over the cipher / authentication masks x 6 option sets; built-in policy audits with and without drift; non-trivial = a lower-rated name after a failure-rated one, or a level/JSON option, or a broken stage, or a policy audit',
                       assumptions=['expected status is computed from the table classes of the advertised names (+ Terrapin context by the published rule, unknown names count as warnings), no probe answered'])
